@@ -82,3 +82,91 @@ func (p *PX) nilTest(c *Term) (truth, known bool) {
 	}
 	return c.Op == token.NEQ, true
 }
+
+// wholeLocalArray: x is `arr[:]` of a local array whose elements are not octets.
+func wholeLocalArray(x *ssa.Slice) (*ssa.Alloc, bool) {
+	if x.Low != nil || x.High != nil || x.Max != nil {
+		return nil, false
+	}
+	al, ok := x.X.(*ssa.Alloc)
+	if !ok {
+		return nil, false
+	}
+	if _, isBytes := isByteArrayPtr(al.Type()); isBytes {
+		return nil, false
+	}
+	if _, ok := localArrayLen(al); !ok {
+		return nil, false
+	}
+	return al, true
+}
+
+func localArrayLen(al *ssa.Alloc) (int64, bool) {
+	pt, ok := al.Type().Underlying().(*types.Pointer)
+	if !ok {
+		return 0, false
+	}
+	at, ok := pt.Elem().Underlying().(*types.Array)
+	if !ok {
+		return 0, false
+	}
+	return at.Len(), true
+}
+
+func isSliceOrArrayPtr(t types.Type) bool {
+	switch u := t.Underlying().(type) {
+	case *types.Slice:
+		return true
+	case *types.Pointer:
+		_, ok := u.Elem().Underlying().(*types.Array)
+		return ok
+	}
+	return false
+}
+
+// appendCells: r = append(s, e1 … ek) of a slice whose elements are not octets
+// and whose length is a number on this path: r[len(s)+j] holds ej and r[i] what
+// s[i] held (cells are kept under "mem:idx(<slice term>,<index>)", the keys of
+// element stores and loads).  A list filled by `append` in one loop and read by
+// a `range` loop afterwards yields the values that were appended, in order.
+func (p *PX) appendCells(x *ssa.Call, fr *pxFrame, st *pxState) {
+	bi, ok := x.Call.Value.(*ssa.Builtin)
+	if !ok || bi.Name() != "append" || len(x.Call.Args) != 2 || isByteSlice(x.Type()) || p.views {
+		return
+	}
+	sl, ok := x.Call.Args[1].(*ssa.Slice)
+	if !ok || sl.Low != nil || sl.High != nil {
+		return
+	}
+	al, ok := sl.X.(*ssa.Alloc)
+	if !ok {
+		return
+	}
+	k, ok := localArrayLen(al)
+	if !ok || k > 16 {
+		return
+	}
+	base := p.term(x.Call.Args[0], fr, st)
+	res := p.term(x, fr, st)
+	lt := p.lenTerm(base, types.Typ[types.Int])
+	if lt.K != TConst || !lt.C.IsInt64() || lt.C.Int64() < 0 || lt.C.Int64() > 64 {
+		return
+	}
+	L := lt.C.Int64()
+	cell := func(t *Term, i int64) string { return "mem:idx(" + t.key + "," + itoa(int(i)) + ")" }
+	for i := int64(0); i < L; i++ {
+		if v, ok := st.vals[cell(base, i)]; ok {
+			st.vals[cell(res, i)] = v
+		} else {
+			delete(st.vals, cell(res, i))
+		}
+	}
+	at := p.term(al, fr, st)
+	for j := int64(0); j < k; j++ {
+		if v, ok := st.vals[cell(at, j)]; ok {
+			st.vals[cell(res, L+j)] = v
+		} else {
+			delete(st.vals, cell(res, L+j))
+		}
+	}
+}
